@@ -366,17 +366,6 @@ theorem Keeps.forIn_list_mem {β γ : Type} {I : World → Prop} {l : List γ} {
     | done b => exact Keeps.pure b
     | yield b => exact ih fun a ha => hf a (List.mem_cons_of_mem _ ha)
 
-/-- the `bump` action: both loops, every component written is in `C` -/
-theorem bumpLoop_hb (hC : ∀ c, C c) (rows : List (AS × Arch × Nat)) :
-    Keeps (HB E H A C) (forIn rows PUnit.unit fun (x : AS × Arch × Nat) (_ : PUnit) => do
-      let r ← forIn x.1.mutCols PUnit.unit fun c (_ : PUnit) => do
-        bumpCell x.2.1.index x.2.2 c
-        pure (ForInStep.yield PUnit.unit)
-      pure (ForInStep.yield r) : M PUnit) := by
-  refine Keeps.forIn_list fun x _ => ?_
-  refine Keeps.bind (Keeps.forIn_list fun c _ => ?_) fun _ => Keeps.pure _
-  exact Keeps.bind (bumpCell_hb _ _ _ (hC c)) fun _ => Keeps.pure _
-
 /-- **one scripted action.**  Every action but `bump` keeps the bound for every `C` — so for `C = ∅`: such an action
     changes no read.  `bump` keeps it when `C` is everything. -/
 theorem runAct_hb (hk : Key) (it : QItem) (loc : Loc) (act : Act) (hC : (∃ p, act = .bump p) → ∀ c, C c) :
@@ -399,5 +388,49 @@ theorem runAct_hb (hk : Key) (it : QItem) (loc : Loc) (act : Act) (hC : (∃ p, 
         exact Keeps.bind (bumpCell_hb _ _ _ (hC' c)) fun _ => Keeps.pure _
     · exact ubErr_hb _
   | _ => sh_keeps
+
+/-- the form the leaf table uses inside the body loop of `runHandler` -/
+theorem runAct_hb' {body : List Act} (hall : ∀ act ∈ body, (∃ p, act = Act.bump p) → ∀ c, C c) {act : Act}
+    (hm : act ∈ body) (hk : Key) (it : QItem) (loc : Loc) : Keeps (HB E H A C) (runAct hk it loc act) :=
+  runAct_hb hk it loc act (hall act hm)
+
+/-- **one handler run** (`Handler::run`): the bound is kept for every `C` if the body has no `bump`, and for `C` =
+    everything otherwise -/
+theorem runHandler_hb (hk : Key) (it : QItem) (loc : Loc)
+    (hC : ∀ h p, H.get hk = some h → Act.bump p ∈ h.body → ∀ c, C c) :
+    Keeps (HB E H A C) (runHandler hk it loc) := by
+  unfold runHandler
+  refine Keeps.get_bind fun w hw => ?_
+  split
+  · rename_i h hh
+    have hall : ∀ act ∈ h.body, (∃ p, act = Act.bump p) → ∀ c, C c := by
+      rintro act ha ⟨p, rfl⟩
+      exact hC h p (by rw [← hw.2.1]; exact hh) ha
+    repeat' first
+      | (with_reducible refine Keeps.forIn_list_mem (fun _ _ _ => ?_))
+      | exact runAct_hb' hall (by assumption) _ _ _
+      | sh_step
+  · exact ubErr_hb _
+
+theorem runHandler_hb' {hs : List Key} (hall : ∀ hk ∈ hs, ∀ h p, H.get hk = some h → Act.bump p ∈ h.body → ∀ c, C c)
+    {hk : Key} (hm : hk ∈ hs) (it : QItem) (loc : Loc) : Keeps (HB E H A C) (runHandler hk it loc) :=
+  runHandler_hb hk it loc (hall hk hm)
+
+/-- **the handler loop of a delivery** -/
+theorem handlerLoop_hb (it : QItem) (info : EvInfo) (loc : Loc) (hs : List Key)
+    (hC : ∀ hk ∈ hs, ∀ h p, H.get hk = some h → Act.bump p ∈ h.body → ∀ c, C c) :
+    Keeps (HB E H A C) (handlerLoop it info loc hs) := by
+  unfold handlerLoop
+  repeat' first
+    | (with_reducible refine Keeps.forIn_list_mem (fun _ _ _ => ?_))
+    | exact runHandler_hb' hC (by assumption) _ _
+    | sh_step
+
+/-- **the handler phase of a delivery** (ownership flag cleared, then the loop) -/
+theorem handlerPhase_hb (it : QItem) (info : EvInfo) (loc : Loc) (hs : List Key)
+    (hC : ∀ hk ∈ hs, ∀ h p, H.get hk = some h → Act.bump p ∈ h.body → ∀ c, C c) :
+    Keeps (HB E H A C) (handlerPhase it info loc hs) := by
+  unfold handlerPhase
+  exact Keeps.bind (Keeps.modify fun _ h => h) fun _ => handlerLoop_hb it info loc hs hC
 
 end Evenio
